@@ -560,6 +560,114 @@ func evalExt(d extDesc) ev.Result {
 	return r
 }
 
+// ---- extension histories (forks, repeated extension of one object) -----------------
+
+type extOp struct {
+	Src    int  `json:"src"`    // index into the pool of voucher objects (mod pool size)
+	Owner  int  `json:"owner"`  // next owner key index 0..3
+	Reload bool `json:"reload"` // extend a decoded copy of the pooled object instead of the object itself
+}
+
+type histDesc struct {
+	V   vcfg    `json:"v"` // Owners is the initial chain built before the history starts
+	Ops []extOp `json:"ops"`
+}
+
+type pooled struct {
+	ov      *fdo.Voucher
+	owner   int // key index of the current owner
+	entries int
+	enc     []byte // encoding when the object was created
+}
+
+func genHist(t *rapid.T) histDesc {
+	d := histDesc{V: genV(t, 0)}
+	if len(d.V.Owners) > 3 {
+		d.V.Owners = d.V.Owners[:3]
+	}
+	n := rapid.IntRange(1, 7).Draw(t, "nops")
+	for i := 0; i < n; i++ {
+		d.Ops = append(d.Ops, extOp{Src: rapid.IntRange(0, 7).Draw(t, "src"), Owner: rapid.IntRange(0, 3).Draw(t, "owner"), Reload: rapid.IntRange(0, 3).Draw(t, "reload") == 0})
+	}
+	return d
+}
+
+// evalHist: vouchers are values; extending one (any number of times, to different
+// next owners, directly or after a storage round trip) must leave every voucher
+// obtained earlier exactly as it was: still verifying, still reporting the key of
+// its own last extension, same number of entries, same encoding.
+func evalHist(d histDesc) ev.Result {
+	b := build(d.V, true)
+	if b.err != nil {
+		return ev.Failf("build", "%s: %v", d.V.id(), b.err)
+	}
+	kind := d.V.cfg().Kind()
+	var pool []*pooled
+	add := func(ov *fdo.Voucher, owner int) {
+		enc, _ := cbor.Marshal(ov)
+		pool = append(pool, &pooled{ov: ov, owner: owner, entries: len(ov.Entries), enc: enc})
+	}
+	for i, st := range b.steps {
+		o := deploy.KeyMfg
+		if i > 0 {
+			o = d.V.Owners[i-1]
+		}
+		add(st, o)
+	}
+	forks := map[int]int{}
+	maxFork := 0
+	check := func(after string) *ev.Result {
+		for i, p := range pool {
+			var why string
+			var got crypto.PublicKey
+			if pkey, pmsg, ok := ev.Guard(func() { why = verifyAll(p.ov, b.dev); got, _ = p.ov.OwnerPublicKey() }); !ok {
+				r := ev.Failf(pkey, "%s %s: pool[%d]: %s", d.V.id(), after, i, pmsg)
+				return &r
+			}
+			if why != "" {
+				r := ev.Failf("history-breaks-earlier-voucher", "%s %s: voucher #%d (created with %d entries) no longer verifies: %s", d.V.id(), after, i, p.entries, why)
+				return &r
+			}
+			if len(p.ov.Entries) != p.entries {
+				r := ev.Failf("history-changes-entry-count", "%s %s: voucher #%d had %d entries when created, now %d", d.V.id(), after, i, p.entries, len(p.ov.Entries))
+				return &r
+			}
+			if !pubEqual(got, keys.Get(kind, p.owner).Public()) {
+				r := ev.Failf("history-changes-owner", "%s %s: voucher #%d (%d entries) was extended to owner key #%d but OwnerPublicKey now reports another key", d.V.id(), after, i, p.entries, p.owner)
+				return &r
+			}
+			if enc, _ := cbor.Marshal(p.ov); !bytes.Equal(enc, p.enc) {
+				r := ev.Failf("history-changes-encoding", "%s %s: voucher #%d encodes differently than when it was created", d.V.id(), after, i)
+				return &r
+			}
+		}
+		return nil
+	}
+	for k, op := range d.Ops {
+		si := op.Src % len(pool)
+		src := pool[si]
+		forks[si]++
+		if forks[si] > maxFork {
+			maxFork = forks[si]
+		}
+		from := src.ov
+		if op.Reload {
+			from = clone(src.ov)
+		}
+		next, err := deploy.Extend(from, keys.Get(kind, src.owner), deploy.OwnerPublic(d.V.cfg(), op.Owner), nil)
+		if err != nil {
+			return ev.Failf("history-extend-failed", "%s op %d: extending voucher #%d (owner key #%d) to key #%d: %v", d.V.id(), k, si, src.owner, op.Owner, err)
+		}
+		add(next, op.Owner)
+		if r := check(fmt.Sprintf("after op %d (extend #%d -> key %d, reload=%v)", k, si, op.Owner, op.Reload)); r != nil {
+			return *r
+		}
+	}
+	res := ev.OK(fmt.Sprintf("history/maxfork%d", min(maxFork, 3)))
+	res.NonTrivial = maxFork >= 2
+	return res
+}
+
 // ---- generators -----------------------------------------------------------------------
 
 func genV(t *rapid.T, minLen int) vcfg {
@@ -616,6 +724,9 @@ func TestC04(t *testing.T) {
 	}, evalPositive)
 	ev.Rapid(r, "positive-random", ev.N{Quick: 300, Thorough: 6000}, func(t *rapid.T) vcfg { return genV(t, 0) }, evalPositive)
 	r.SetRule("positive-random", "rapid-generated (key, enc, owner sequence over keys 0..3 with repeats, device); same oracle as positive")
+
+	r.SetRule("extension-histories", "rapid-generated histories: a freshly signed voucher (key, enc, 0..3 initial extensions, every intermediate object kept) then 1..7 operations 'extend pooled voucher #i with its current owner key to owner key j', on the object itself or on a decoded copy, so the same object is extended several times to different owners (forks) at every entry-slice length/capacity. Oracle after every operation, for EVERY voucher obtained so far: all verification steps pass, OwnerPublicKey is the key of that voucher's own last extension, entry count and encoding are what they were when it was created. Non-trivial: some object extended at least twice; distinct by descriptor.")
+	ev.Rapid(r, "extension-histories", ev.N{Quick: 1500, Thorough: 60000}, genHist, evalHist)
 
 	r.SetRule("alteration", "voucher from (key, enc, owner sequence 1..4) × one structure-aware mutation (all operators of the engine, descending into the header bstr, entry payloads and protected headers) or one bit flip of the encoded voucher. Oracle: decoding fails or at least one of VerifyHeader/VerifyManufacturerKey/VerifyCertChainHash/VerifyDeviceCertChain/VerifyEntries/OwnerPublicKey fails — unless the alteration lies in the outer version or an entry's unprotected header map, or the decoded voucher re-encodes to the original bytes; never a panic. Non-trivial: altered voucher with ≥1 entry; distinct by (voucher, operator, path, arg/bit).")
 	ev.Rapid(r, "alteration", ev.N{Quick: 16000, Thorough: 600000}, genAlt, evalAlt)
